@@ -274,6 +274,33 @@ class Structures:
             return ('GROUP', container, 'rank', sort)
         return ('BAD', sort, 'groups %s hold the assignees or their lecturer ranks' % name, show(val)[:80])
 
+    def _free_places(self, t):
+        """a COPY of the upper quotas counted down once per assignee at its own index: free places per project / lecturer"""
+        pre, entries = t[1], t[2]
+        src = pre
+        if src[0] == 'call' and src[1] in (S('list'), S('tuple')) and len(src[2]) == 1:
+            src = src[2][0]
+        elif src[0] == 'slice' and src[2] == NONE and src[3] == NONE:
+            src = src[1]
+        elif src[0] == 'comp' and len(src[1]) == 1 and src[1][0][1] == TRUE and src[2] == src[1][0][0]:
+            src = src[1][0][0][3]
+        else:
+            return None
+        a = lp.model_attr(src)
+        if a not in UQ_ATTR or len(entries) != 1:
+            return None
+        sort = UQ_ATTR[a]
+        op, idx, val, ch = entries[0]
+        name = self.name_of(t)
+        if op != 'subidx' or val != C(1) or len(ch) != 1 or ch[0][0][3] != self.asg:
+            return ('BAD', sort, 'free places %s are the upper quotas counted down by one per assignee' % name, '%s %s' % (op, show(val)))
+        b, g = ch[0]
+        if idx != A(b, OWN[sort]):
+            return ('BAD', sort, 'free places %s of a %s are counted down at the assignee\'s own %s' % (name, 'project' if sort == 'P' else 'lecturer', OWN[sort]), show(idx))
+        if g not in notnone_forms(b):
+            return ('BAD', sort, 'free places %s count every non-None entry of the assignment (and only those)' % name, 'guard ' + show(g)[:80])
+        return ('FREE', sort)
+
     def _classify(self, t):
         k = t[0]
         if k == 'attr' and lp.model_attr(t) in UQ_ATTR:
@@ -282,6 +309,9 @@ class Structures:
             g = self._groups(t)
             if g is not None:
                 return g
+            fp = self._free_places(t)
+            if fp is not None:
+                return fp
             try:
                 r = classify_term(t, self.asg, self.name_of(t))
             except Unknown:
@@ -383,6 +413,8 @@ class StabEval(TermEval):
             return None if self.none(sort) else Abs('elem', ('WORST', sort))
         if kind in ('COUNT', 'UQ'):
             return Abs('elem', (kind, sort))
+        if kind == 'FREE':
+            return Abs('free', sort)              # upper quota - number of assignees (>= 0 by the precondition)
         if kind == 'GROUP':
             if cls[1] == 'dict' and self.none(sort):
                 raise TRaises('KeyError: group of an agent without assignee')
@@ -654,6 +686,21 @@ class StabEval(TermEval):
             self.row = (b, m)
             return
         if self.pair is None:
+            # the pairs examined may be chosen by a condition (`row if unassigned else <the preferred ones>`) and filtered:
+            # a pair the filter drops is one the function does not report, exactly as if its body were skipped
+            self.pair_guard = None
+            while dom[0] == 'ite':
+                dom = dom[2] if self.truth(self.ev(dom[1])) else dom[3]
+            if dom[0] == 'comp' and len(dom[1]) == 1 and dom[2] == dom[1][0][0]:
+                b2, g = dom[1][0]
+                try:
+                    d2 = self.ev(b2[3])
+                except Unknown:
+                    d2 = None
+                if isinstance(d2, Abs) and d2.tag == 'row' and d2.data == 'value':
+                    self.pair = b
+                    self.pair_guard = replace(g, b2, b)
+                    return
             try:
                 d = self.ev(dom)
             except Unknown:
@@ -686,7 +733,12 @@ class StabEval(TermEval):
             elif k == 'raise':
                 raise TRaises('explicit raise')
             elif k == 'let':
-                if self.in_rows:
+                v_ = e.value
+                while v_[0] == 'ite' and self.in_rows:
+                    v_ = v_[2] if self.truth(self.ev(v_[1])) else v_[3]
+                if self.in_rows and v_[0] == 'comp' and len(v_[1]) == 1 and v_[2] == v_[1][0][0] and self.pair is None:
+                    pass                      # a filtered view of the row: its filter is evaluated when the view is looped over
+                elif self.in_rows:
                     self.ev(e.value)          # evaluation point: errors surface here even when the value is never used
             elif k == 'call':
                 if self.in_rows or any(x.kind == 'for' and self.loop_kind(x) for x, _ in iter_effects(e.body)):
@@ -705,6 +757,8 @@ class StabEval(TermEval):
                 self.in_rows += 1
                 try:
                     self.enter(e.binder)
+                    if self.pair is e.binder and getattr(self, 'pair_guard', None) is not None and not self.truth(self.ev(self.pair_guard)):
+                        continue                      # filtered out: the body does not run for this pair
                     try:
                         self.execute(e.body)
                     except Leave as lv:
@@ -731,6 +785,10 @@ class StabEval(TermEval):
             return self.row_mode(dom)
         if self.pair is None:
             try:
+                while dom[0] == 'ite':
+                    dom = dom[2] if self.truth(self.ev(dom[1])) else dom[3]
+                if dom[0] == 'comp' and len(dom[1]) == 1 and dom[2] == dom[1][0][0]:
+                    dom = dom[1][0][0][3]              # a filtered view of the row: the filter is applied on entry
                 d = self.ev(dom)
             except (Unknown, KindError, TRaises):
                 return None
@@ -843,7 +901,7 @@ def run_terms(rep, repo, tier):
         for c in st.memo.values():
             if not c or c[0] == 'BAD':
                 continue
-            if c[0] == 'COUNT' or c[0] == 'GROUP':
+            if c[0] in ('COUNT', 'GROUP', 'FREE'):
                 have.add((c[-1], 'cnt'))
             if c[0] in ('WORST', 'WORSTD') or (c[0] == 'GROUP'):
                 have.add((c[-1], 'worst'))
